@@ -8,6 +8,7 @@ who-may-call constraint; anything else is a violation naming the site."""
 import json, os, re
 from .core import VERIF, EngineError
 from .prog import short
+from . import pathrules as PR
 
 HASH_TY = re.compile(r"std::collections::hash::(map::HashMap|set::HashSet)<")
 ITER_ENTRY = re.compile(
@@ -195,7 +196,7 @@ def run(R):
                 # who may call the function that leaks the order
                 fk = f.key
                 for ck in sorted(callers.get(fk, ())):
-                    cf = P.fns[ck]
+                    cf = PR.pinned_owner(P, P.fns[ck])
                     k2 = "%s<-%s" % (f.spath, cf.spath)
                     if cf.spath in e["callers_allowed"] or excluded(cf):
                         R.ok("C18.callers", k2, "listed caller", cf.loc())
